@@ -1,12 +1,117 @@
 import NmVerif.Lemmas.Reduce
-import NmVerif.Lemmas.LinalgTrace
 import NmVerif.Index.ReduceTrace
 /-
   Lemmas for `trace_eq_sum_diag` (C08): a reduction over the last axis folds `j ++ [0], j ++ [1], …`; the diagonal
-  index map is NumPy's (lemmas of C16: `diagonalFill_eq_placeIdx`, `placeIdx_inShape`).
+  index map is NumPy's.
+
+  The first block (`diagonalFill_eq_placeIdx` … `length_filterMap_getElem?`) restates, in this namespace, lemmas that C16
+  proves in Lemmas/LinalgTrace.lean about the same model functions (`Linalg.diagonalFill`, `Linalg.placeIdx`): that file
+  cannot be imported here, because its import closure (Lemmas/LinalgList.lean) declares `NmVerif.bcRev_comm`, which
+  Lemmas/Broadcast.lean declares too, and Props/C02.lean, Props/C10.lean import Props/C08.lean next to Props/C06.lean.
 -/
 namespace NmVerif.Reduce
 open NmVerif
+open Linalg
+
+/-- the code's fill loop and NumPy's "put `c1`, `c2` on the two axes, the rest in order" agree -/
+theorem diagonalFill_eq_placeIdx (ax1 ax2 c1 c2 : Nat) (h12 : ax1 ≠ ax2) :
+    ∀ (L : List Nat) (free extra : Idx),
+      (L.filter (fun i => decide (i ≠ ax1 ∧ i ≠ ax2))).length ≤ free.length →
+      diagonalFill ax1 ax2 (c1 : Int) (c2 : Int) L (free ++ extra) =
+        (placeIdx [ax1, ax2] [c1, c2] L free).map (fun (x : Nat) => (x : Int)) := by
+  intro L
+  induction L with
+  | nil => intro free extra _; simp [diagonalFill, placeIdx]
+  | cons i is ih =>
+    intro free extra hlen
+    simp only [diagonalFill, placeIdx, List.zip_cons_cons, List.zip_nil_right, List.lookup_cons, List.lookup_nil]
+    by_cases h2 : i = ax2
+    · have h1 : i ≠ ax1 := by rw [h2]; exact h12.symm
+      have hb1 : (i == ax1) = false := by simpa using h1
+      have hb2 : (i == ax2) = true := by simpa using h2
+      simp only [if_pos h2, hb1, hb2, List.map_cons]
+      rw [ih free extra (by simpa [List.filter_cons, h1, h2] using hlen)]
+    · by_cases h1 : i = ax1
+      · have hb1 : (i == ax1) = true := by simpa using h1
+        simp only [if_neg h2, if_pos h1, hb1, List.map_cons]
+        rw [ih free extra (by simpa [List.filter_cons, h1, h2] using hlen)]
+      · have hb1 : (i == ax1) = false := by simpa using h1
+        have hb2 : (i == ax2) = false := by simpa using h2
+        simp only [if_neg h2, if_neg h1, hb1, hb2]
+        have hlen' : (is.filter (fun i => decide (i ≠ ax1 ∧ i ≠ ax2))).length + 1 ≤ free.length := by
+          simpa [List.filter_cons, h1, h2] using hlen
+        match free, hlen' with
+        | f :: fs, hl =>
+          simp only [List.cons_append, List.map_cons]
+          rw [ih fs extra (by simpa using hl)]
+        | [], hl => simp at hl
+
+theorem placeIdx_inShape (sh : Shape) (ax1 ax2 c1 c2 n1 n2 : Nat) (h12 : ax1 ≠ ax2)
+    (hn1 : sh[ax1]? = some n1) (hn2 : sh[ax2]? = some n2) (hc1 : c1 < n1) (hc2 : c2 < n2) :
+    ∀ (L : List Nat) (free : Idx), (∀ i ∈ L, i < sh.length) →
+      InShape free ((L.filter (fun i => decide (i ≠ ax1 ∧ i ≠ ax2))).filterMap (fun i => sh[i]?)) →
+      InShape (placeIdx [ax1, ax2] [c1, c2] L free) (L.filterMap (fun i => sh[i]?)) := by
+  intro L
+  induction L with
+  | nil => intro free _ _; simp [placeIdx, InShape]
+  | cons i is ih =>
+    intro free hL hfree
+    have hi : i < sh.length := hL i (by simp)
+    have hL' : ∀ j ∈ is, j < sh.length := fun j hj => hL j (by simp [hj])
+    have hsi : sh[i]? = some sh[i] := List.getElem?_eq_getElem hi
+    simp only [placeIdx, List.zip_cons_cons, List.zip_nil_right, List.lookup_cons, List.lookup_nil]
+    rw [List.filterMap_cons, hsi]
+    by_cases h1 : i = ax1
+    · have hb1 : (i == ax1) = true := by simpa using h1
+      simp only [hb1, InShape]
+      refine ⟨?_, ih free hL' (by simpa [List.filter_cons, h1] using hfree)⟩
+      subst h1; rw [hsi] at hn1; simp at hn1; omega
+    · by_cases h2 : i = ax2
+      · have hb1 : (i == ax1) = false := by simpa using h1
+        have hb2 : (i == ax2) = true := by simpa using h2
+        simp only [hb1, hb2, InShape]
+        refine ⟨?_, ih free hL' (by simpa [List.filter_cons, h1, h2] using hfree)⟩
+        subst h2; rw [hsi] at hn2; simp at hn2; omega
+      · have hb1 : (i == ax1) = false := by simpa using h1
+        have hb2 : (i == ax2) = false := by simpa using h2
+        simp only [hb1, hb2]
+        have hfree' : InShape free (sh[i] :: (is.filter (fun i => decide (i ≠ ax1 ∧ i ≠ ax2))).filterMap (fun i => sh[i]?)) := by
+          simpa [List.filter_cons, h1, h2, hsi] using hfree
+        match free, hfree' with
+        | f :: fs, hf =>
+          simp only [InShape] at hf ⊢
+          exact ⟨hf.1, ih fs hL' hf.2⟩
+        | [], hf => simp [InShape] at hf
+
+theorem filterMap_congr_mem {α β : Type} {l : List α} {f g : α → Option β} (h : ∀ a ∈ l, f a = g a) :
+    l.filterMap f = l.filterMap g := by
+  induction l with
+  | nil => rfl
+  | cons x xs ih =>
+    simp only [List.filterMap_cons, h x (by simp)]
+    rw [ih (fun a ha => h a (by simp [ha]))]
+
+theorem filterMap_getElem?_range (s : List Nat) : (List.range s.length).filterMap (fun i => s[i]?) = s := by
+  have : (List.range s.length).filterMap (fun i => s[i]?) = (List.range s.length).filterMap (fun i => some (s.getD i 0)) := by
+    apply filterMap_congr_mem
+    intro j hj
+    simp [List.mem_range.1 hj, List.getD_eq_getElem?_getD]
+  rw [this, List.filterMap_eq_map']
+  apply List.ext_getElem
+  · simp
+  · intro i h1 h2; simp at h1; simp [List.getElem?_eq_getElem h1]
+
+theorem length_filterMap_getElem? (s L : List Nat) (h : ∀ i ∈ L, i < s.length) :
+    (L.filterMap (fun i => s[i]?)).length = L.length := by
+  induction L with
+  | nil => rfl
+  | cons x xs ih =>
+    have hxl : x < s.length := h x (by simp)
+    have hx : s[x]? = some s[x] := List.getElem?_eq_getElem hxl
+    rw [List.filterMap_cons, hx]
+    simp [ih (fun i hi => h i (by simp [hi]))]
+
+
 
 theorem normAxis_neg_one (m : Nat) : normAxis (m+1) (-1) = m := by
   unfold normAxis
@@ -97,7 +202,6 @@ theorem readAt_ofNat {α : Type} (a : Arr α) (i : Idx) (h : InShape i a.shape) 
     apply List.map_congr_left; intro x _; simp
   rw [hm, if_pos ⟨by intro x hx; simp only [List.mem_map] at hx; obtain ⟨y, _, rfl⟩ := hx; omega, h⟩]
 
-open Linalg in
 /-- `view::trace` on every accepted axis pair and every offset with a non-empty diagonal: NumPy's shape, and per result
     index the diagonal elements folded in increasing order; every read inside the source shape -/
 theorem trace_spec {α : Type} (add : α → α → α) (a : Arr α) (off axis1 axis2 : Int) (n1 n2 : Nat)
